@@ -1,5 +1,6 @@
 import RulioProofs.SysCover
 import RulioProofs.CloseSys
+import RulioProofs.FirstVisits
 
 open AM
 
@@ -77,11 +78,11 @@ example (k : Kind) (c : Ctx) (p : Obj) :
     (sysSearchFacts (exSelfLoop k) c "a" p true 7).2 = .error "loop" := by
   have wf : SysWF (exSelfLoop k) := Sys.at_wf (sysFresh_ab_wf k) _ _
   have hc : chainFP (exSelfLoop k) 7 "a" [] "a" = true := by cases k <;> decide +kernel
-  have := loop_reported (now := 7) (fun _ => locSearchFacts c p 7) wf hc (by decide) (by simp) (by simp)
+  have := loop_reported (now := 7) (tagged (fun _ => locSearchFacts c p 7)) wf hc (by decide) (by simp) (by simp)
     (path := []) (by simp) (fuel := ancestorFuel (exSelfLoop k)) (by simp [ancestorFuel]) []
   unfold sysSearchFacts
   simp only [if_true]
-  cases hd : doAncestors (ancestorFuel (exSelfLoop k)) (exSelfLoop k) "a" 7 (fun _ => locSearchFacts c p 7) [] with
+  cases hd : doAncestors (ancestorFuel (exSelfLoop k)) (exSelfLoop k) "a" 7 (tagged (fun _ => locSearchFacts c p 7)) [] with
   | mk s r => rw [hd] at this; simp only at this; subst this; rfl
 
 /-- indirect loop `a → b → a` (the case that used to overflow the Go stack): reported as `loop` -/
@@ -93,11 +94,11 @@ example (k : Kind) (c : Ctx) (p : Obj) :
     have kn := fun ps => LM.KeepsId.keepsName (locSetParents_keeps {} ps 0)
     unfold exIndirectLoop
     rw [Sys.at_length (Sys.at_wf (sysFresh_ab_wf k) _ _) _ (kn _), Sys.at_length (sysFresh_ab_wf k) _ (kn _)]; rfl
-  have := loop_reported (now := 7) (fun _ => locSearchFacts c p 7) wf hc (by decide) (by simp) (by simp)
+  have := loop_reported (now := 7) (tagged (fun _ => locSearchFacts c p 7)) wf hc (by decide) (by simp) (by simp)
     (path := []) (by simp) (fuel := ancestorFuel (exIndirectLoop k)) (by simp [ancestorFuel, hlen]) []
   unfold sysSearchFacts
   simp only [if_true]
-  cases hd : doAncestors (ancestorFuel (exIndirectLoop k)) (exIndirectLoop k) "a" 7 (fun _ => locSearchFacts c p 7) [] with
+  cases hd : doAncestors (ancestorFuel (exIndirectLoop k)) (exIndirectLoop k) "a" 7 (tagged (fun _ => locSearchFacts c p 7)) [] with
   | mk s r => rw [hd] at this; simp only at this; subst this; rfl
 
 /-- **parents_immediate** — after a successful `SetParents ps` at `n`, the very next parent read that
@@ -221,6 +222,46 @@ theorem visits_exactly_ancestors_quiet {α} {now : Int} {fn : String → LM α} 
     obtain ⟨p, hp, rfl⟩ := List.mem_map.1 hx
     exact no_downward_delivery wf hfnk hfnm n fuel h p hp
   · exact (doAncestors_cover hq wf fuel n [] [] ls h).2 x
+
+/-- **each_ancestor_once** — of the visits the walk makes, inherited search and dispatch keep the first per location
+(`firstVisits`, the model of the `done` set of `doAncestors`): the kept visits are visits of the walk in walk order, no
+location has two of them, and (quiet case) the locations that have one are exactly `n` and its transitive declared
+parents. So a location reached along two chains of parents — the top of a diamond — contributes its facts and its
+rules once: an inherited search does not return them twice and event dispatch does not fail with `duplicate id`. -/
+theorem each_ancestor_once {α} {now : Int} {fn : String → LM α} {sys : Sys}
+    (hq : QuietWalk sys now fn) (wf : SysWF sys) (hfnk : ∀ n, (fn n).KeepsName) (hfnm : ∀ n, (fn n).ParentMono now)
+    (n : String) (fuel : Nat) {ls : List (String × α)} (h : (doAncestors fuel sys n now (tagged fn) []).2 = .ok ls) :
+    (firstVisitsT ls []).Sublist ls ∧ ((firstVisitsT ls []).map (·.1)).Nodup ∧
+      (∀ x, x ∈ (firstVisitsT ls []).map (·.1) ↔ Anc sys now n x) ∧
+      firstVisits ls [] = (firstVisitsT ls []).map (·.2) := by
+  refine ⟨firstVisitsT_sublist ls [], firstVisitsT_nodup ls [], ?_, firstVisits_eq_map ls []⟩
+  intro x
+  rw [← visits_exactly_ancestors_quiet hq wf hfnk hfnm n fuel h x]
+  constructor
+  · intro hx
+    obtain ⟨y, hy, rfl⟩ := List.mem_map.1 hx
+    exact List.mem_map.2 ⟨y, (firstVisitsT_sublist ls []).subset hy, rfl⟩
+  · intro hx
+    obtain ⟨y, hy, rfl⟩ := List.mem_map.1 hx
+    obtain ⟨z, hz, hzy⟩ := firstVisitsT_covers ls [] y hy (by simp)
+    exact List.mem_map.2 ⟨z, hz, hzy⟩
+
+/-- **inherited_search_once_per_location** — the answer of an inherited `SearchFacts` is the concatenation, in walk order,
+of the answers of the kept visits: one local search per location visited. -/
+theorem inherited_search_once_per_location (sys : Sys) (c : Ctx) (n : String) (p : Obj) (now : Int)
+    {s : Sys} {ls : List (String × List (String × Obj × List Bs))}
+    (h : doAncestors (ancestorFuel sys) sys n now (tagged (fun _ => locSearchFacts c p now)) [] = (s, .ok ls)) :
+    sysSearchFacts sys c n p true now = (s, .ok ((firstVisitsT ls []).map (·.2)).flatten) := by
+  unfold sysSearchFacts
+  simp only [if_true, h, firstVisits_eq_map]
+
+/-- a walk that meets no location twice (a tree of parents) is kept whole: nothing changes for it -/
+theorem tree_walk_kept_whole {β} (ls : List (String × β)) (hnd : (ls.map (·.1)).Nodup) :
+    firstVisits ls [] = ls.map (·.2) := by
+  rw [firstVisits_eq_map, firstVisitsT_of_nodup ls [] hnd (by simp)]
+
+/-- the shape of the diamond: the walk from `d` visits `a` twice (`a b a c d`), the kept visits are `a b c d` -/
+example : firstVisits [("a", 1), ("b", 2), ("a", 1), ("c", 3), ("d", 4)] [] = [1, 2, 3, 4] := by decide
 
 /-- non-vacuity: the diamond system is quiet for a state-preserving `fn` (no `!parents` fact is expired) -/
 example (k : Kind) : QuietWalk (exDiamond k) 3 (fun _ => (LM.pure () : LM Unit)) :=
